@@ -806,4 +806,58 @@ theorem exitFrame_events (cfg : ECfg) (F : EFrame) (t1 d : Nat) (o : Obs)
     simp [h2 e he]
   rw [hA, hB]; simp
 
+
+/-! ### the records of one call, spelled out -/
+
+/-- the `more` payload of an ENTRY record: -A on a -pg/fentry hook, if save_to_argbuf accepted the size -/
+def argPayload (cfg : ECfg) (k : Kind) (f : Nat) : Option Nat :=
+  if k == .pg then (match cfg.argSize f with | some n => if n ≤ ARG_MAX then some n else none | none => none) else none
+
+/-- the `more` payload of an EXIT record -/
+def retPayloadOf (cfg : ECfg) (k : Kind) (f : Nat) : Option Nat :=
+  if k == .pg then (match cfg.retSize f with | some n => if n ≤ ARG_MAX then some n else none | none => none) else none
+
+theorem entryArea_arg (cfg : ECfg) (g : EFrame) (matched argok : Bool) (midx : Nat) (o : Obs) :
+    (entryArea cfg g matched argok midx o).argFl = (if argok then (saveArgument cfg g).argFl else g.argFl) ∧
+    (entryArea cfg g matched argok midx o).argSz = (if argok then (saveArgument cfg g).argSz else g.argSz) ∧
+    (entryArea cfg g matched argok midx o).retFl = g.retFl := by
+  unfold entryArea
+  cases argok <;> simp <;> split <;>
+    simp [setReadFl, (saveRead_b _ _ _ _ _ _).2.1, (saveRead_b _ _ _ _ _ _).2.2.1, (saveRead_b _ _ _ _ _ _).2.2.2.1,
+      (saveArgument_b _ _).2.2.1]
+
+theorem entryOut_entryFrame (cfg : ECfg) (k : Kind) (f t0 d : Nat) (o : Obs) :
+    entryOut (entryFrame cfg k f t0 d o) =
+      .record { time := t0, type := 0, depth := d, addr := f } (argPayload cfg k f) := by
+  have hb := entryFrame_b cfg k f t0 d o
+  have ha := entryArea_arg cfg (freshFrame cfg k f t0 d) true (k == .pg) (d + 1) o
+  unfold entryOut
+  rw [hb]
+  unfold entryFrame
+  rw [ha.1, ha.2.1]
+  cases k <;> simp [entryRec, plainFrame, argPayload, saveArgument, freshFrame]
+  cases cfg.argSize f with
+  | none => simp
+  | some n => by_cases h : n ≤ ARG_MAX <;> simp [h]
+
+theorem exitRecord_exitFrame (cfg : ECfg) (k : Kind) (f t0 t1 d : Nat) (oE oX : Obs) :
+    Out.record (exitRec (exitFrame cfg (entryFrame cfg k f t0 d oE) t1 d oX).b)
+        (retPayload cfg (!(entryFrame cfg k f t0 d oE).b.cyg && (entryFrame cfg k f t0 d oE).retFl)
+          (exitFrame cfg (entryFrame cfg k f t0 d oE) t1 d oX)) =
+      .record { time := t1, type := 1, depth := d, addr := f } (retPayloadOf cfg k f) := by
+  have hb := entryFrame_b cfg k f t0 d oE
+  have hx := exitArea_b cfg (setEnd (entryFrame cfg k f t0 d oE) t1) (d + 1) oX
+  have hr : (entryFrame cfg k f t0 d oE).retFl = ((k == .pg) && (cfg.retSize f).isSome) := by
+    unfold entryFrame; rw [(entryArea_arg _ _ _ _ _ _).2.2]; rfl
+  have hdep : (entryFrame cfg k f t0 d oE).b.depth = d := by rw [hb]; rfl
+  have haddr : (entryFrame cfg k f t0 d oE).b.addr = f := by rw [hb]; rfl
+  have hcyg : (entryFrame cfg k f t0 d oE).b.cyg = (k == .cyg) := by rw [hb]; rfl
+  unfold exitFrame retPayload
+  rw [hx.1, hx.2.2.2]
+  simp only [setEnd_retFl, setEnd_addr, setEnd_depth, setEnd_endT, hr, exitRec, hdep, haddr, hcyg]
+  cases k <;> simp [retPayloadOf]
+  cases cfg.retSize f with
+  | none => simp
+  | some n => by_cases h : n ≤ ARG_MAX <;> simp [h]
+
 end Uft.Events
